@@ -23,7 +23,7 @@ import RdfModel.Gen.TtlTables
 namespace RdfModel.C05
 open RdfModel RdfModel.TtlDoc
 
-/-- No input reaches a panic (repaired code: D6 in the token layer, D11/D30 here). -/
+/-- No input reaches a panic (repaired code: D6 in the token layer, D11/D40 here). -/
 theorem ttl_doc_no_panic (C : Cfg) (e : End) (hP : C.P.NoPanic) (hL : C.P.LangNonEmpty)
     (base : Option (List Nat)) (pf : List (List Nat × List Nat)) (inp : List Nat) :
     (run C e base pf inp).2 ≠ .panic :=
